@@ -91,7 +91,10 @@ def gen(tier, seed, chunk, nchunks_):
                 argv = optgen.rand_argv(rng, pool, benign, 4, p_benign=0.6)
             if first is None:
                 first = argv
-            steps.append({"env": envops, "argv": argv})
+            step = {"env": envops, "argv": argv}
+            if rng.random() < 0.3:
+                step["mode"] = "V"     # this call goes through parse(std::vector<user_input>)
+            steps.append(step)
         case = {"decl": d, "steps": steps}
         if len(d["opts"]) >= 2 and nseq >= 2 and rng.random() < 0.2:
             # the parser GROWS between two calls: it starts with the first k options and gains the others
@@ -157,7 +160,7 @@ def script(cid, case):
                 actions.append(("setenv", name, val))
                 envstate[name] = val
         states.append(dict(envstate))
-        actions.append(("parse", "A", st["argv"]))
+        actions.append(("parse", st.get("mode", "A"), st["argv"]))
     for si, (st, es) in enumerate(zip(case["steps"], states)):
         for name in universe:
             if name in es:
@@ -165,7 +168,7 @@ def script(cid, case):
             else:
                 actions.append(("unsetenv", name))
         actions.append(("decl", partial if grow and si < grow[1] else d))
-        actions.append(("parse", "A", st["argv"]))
+        actions.append(("parse", st.get("mode", "A"), st["argv"]))
     text, _ = optrun.case_script(cid, partial if grow else d, {}, actions)
     return text
 
@@ -185,6 +188,7 @@ def evaluate(case, lines, S):
         S.counters["scale:" + case["scale"]] += 1
     if case.get("grow"):
         S.counters["parsers-that-grew-between-two-calls"] += 1
+    S.counters["calls-through-parse(vector<user_input>)"] += sum(1 for st in case["steps"] if st.get("mode") == "V")
     touched = False
     for k in range(n):
         if k > 0:
